@@ -1136,13 +1136,14 @@ export class ProcGenWrapper {
         elem.setModelBindingListener(name, () => {})
       }
     }
-    this.tryCallPropertyChangeListener(elem, name, v)
+    // (`change:` listeners are registered under the camel-cased name)
+    this.tryCallPropertyChangeListener(elem, dashToCamelCase(name), v)
   }
 
   // update a attribute
   a = (elem: Element, name: string, v: unknown) => {
     elem.updateAttribute(name, v)
-    this.tryCallPropertyChangeListener(elem, name, v)
+    this.tryCallPropertyChangeListener(elem, dashToCamelCase(name), v)
   }
 
   // set a worklet directive value
